@@ -263,7 +263,7 @@ func oracleC01(res *prodResult, vs *violSet) {
 		}
 		sort.Strings(ls)
 		if len(ls) == 1 && ls[0] == "bp.added" && sc.FlushFreq == 0 && (sc.FlushMessages > 0 || sc.FlushBytes > 0) {
-			vs.add("close-stuck", "buffered-under-unfired-trigger(no Flush.Frequency)", fmt.Sprintf("Close/AsyncClose did not complete: %d messages sit in a broker producer's buffer under Flush.Messages=%d / Flush.Bytes=%d which has not fired, no Flush.Frequency is set, and shutdown does not flush them; parked: %s", last["bp.added"], sc.FlushMessages, sc.FlushBytes, who))
+			vs.add("close-stuck", "buffered-under-unfired-trigger(no-Flush.Frequency)", fmt.Sprintf("Close/AsyncClose did not complete: %d messages sit in a broker producer's buffer under Flush.Messages=%d / Flush.Bytes=%d which has not fired, no Flush.Frequency is set, and shutdown does not flush them; parked: %s", last["bp.added"], sc.FlushMessages, sc.FlushBytes, who))
 			return
 		}
 		vs.add("close-stuck", attr+",last="+strings.Join(ls, "+"), fmt.Sprintf("Close/AsyncClose did not complete and nothing moved any more; messages without outcome were last seen at %v; parked: %s", last, who))
